@@ -653,15 +653,17 @@ macro_rules! custom_error {
             pub struct Error {
                 pub message: String,
                 pub $field: $fty,
+                #[serde(skip)]
+                pub status: Option<dropshot::ErrorStatusCode>,
             }
             impl dropshot::HttpResponseError for Error {
                 fn status_code(&self) -> dropshot::ErrorStatusCode {
-                    dropshot::ErrorStatusCode::BAD_REQUEST
+                    self.status.unwrap_or(dropshot::ErrorStatusCode::BAD_REQUEST)
                 }
             }
             impl From<HttpError> for Error {
                 fn from(e: HttpError) -> Self {
-                    Error { message: e.external_message, $field: $val }
+                    Error { message: e.external_message, $field: $val, status: Some(e.status_code) }
                 }
             }
             impl std::fmt::Display for Error {
@@ -914,6 +916,26 @@ async fn k_headers_num(
     let n = q.into_inner().n;
     Ok(HttpResponseHeaders::new(HttpResponseOk(pick::<Inner>(n)), HdrsNum { x_num: n.unwrap_or(3) }))
 }
+// the same with the endpoint's own error type: the 500 the framework generates for the
+// failed conversion must be in that type (the operation's documented 5XX schema)
+#[endpoint { method = GET, path = "/ce/headers_num" }]
+async fn ce_headers_num(
+    _rq: Ctx,
+    q: Query<SampleQ>,
+) -> Result<HttpResponseHeaders<HttpResponseOk<Inner>, HdrsNum>, inst::Error> {
+    let n = q.into_inner().n;
+    Ok(HttpResponseHeaders::new(HttpResponseOk(pick::<Inner>(n)), HdrsNum { x_num: n.unwrap_or(3) }))
+}
+// a header value taken from the request: a line feed in it cannot be sent
+#[endpoint { method = GET, path = "/ce/headers_note" }]
+async fn ce_headers_note(
+    _rq: Ctx,
+    q: Query<QReq>,
+) -> Result<HttpResponseHeaders<HttpResponseOk<QReq>, Hdrs>, disks::Error> {
+    let q = q.into_inner();
+    let note = q.b.clone();
+    Ok(HttpResponseHeaders::new(HttpResponseOk(q), Hdrs { x_count: "1".into(), x_note: note }))
+}
 // path + query + body together
 #[endpoint { method = PUT, path = "/c/{id}" }]
 async fn c_all(
@@ -1096,6 +1118,14 @@ fn build_api() -> (ApiDescription<()>, Vec<Ep>) {
         d(None, None, Some((NewU::ty(), "json")), Some(NewU::ty()), "created", Some(Hdrs::ty())));
     reg!(k_headers_num, "get", "/k/headers_num",
         d(None, Some(SampleQ::ty()), None, Some(Inner::ty()), "ok", Some(HdrsNum::ty())));
+    reg!(ce_headers_num, "get", "/ce/headers_num",
+        d(None, Some(SampleQ::ty()), None, Some(Inner::ty()), "ok", Some(HdrsNum::ty())));
+    reg!(ce_headers_note, "get", "/ce/headers_note", {
+        let mut v = d(None, Some(QReq::ty()), None, Some(QReq::ty()), "ok", Some(Hdrs::ty()));
+        // the response header x_note carries the query parameter `b` as it was received
+        v["hdrFrom"] = json!("b");
+        v
+    });
     reg!(c_all, "put", "/c/{id}",
         d(Some(PU32::ty()), Some(QVerbose::ty()), Some((Outer::ty(), "json")), Some(Outer::ty()), "ok", None));
     reg!(b_form, "post", "/b/form", d(None, None, Some((Form::ty(), "form")), Some(Form::ty()), "ok", None));
@@ -1198,8 +1228,10 @@ fn int_value(x: i128) -> Value {
 }
 
 // (a string schema admits strings that look like numbers, floats or booleans just as well)
-const WORDS: [&str; 14] =
-    ["a", "zed", "hello world", "x/y", "é✓", "a&b=c", "100%", "q?", "7", "007", "-1", "1e3", "true", "nan"];
+const WORDS: [&str; 17] = [
+    "a", "zed", "hello world", "x/y", "é✓", "a&b=c", "100%", "q?", "7", "007", "-1", "1e3", "true", "nan", "two\nlines",
+    "tab\there", "del\u{7f}",
+];
 
 /// a value valid for the schema (as far as the document says), `None` when the
 /// schema admits none (`{type: string, enum: [null]}` without nullable).
